@@ -23,6 +23,8 @@ type specCtx struct {
 	pos     token.Pos
 	scope   ast.Node
 	nolocals bool
+	loopEntry *Env     // state at entry of the loop whose invariant is being evaluated (for atentry(x))
+	innerPos token.Pos // actual position of the call inside inlined closures (for inner(x))
 }
 
 func (f *FuncCtx) info() *types.Info { return f.Pkg.TypesInfo }
